@@ -46,16 +46,20 @@ theorem gen_struct_known {env : Env} {seen opn : List Nat} {id : Nat} {n p : B} 
 theorem applyConstraints_nil (t : IR) : applyConstraints [] t = t := by
   cases t <;> simp [applyConstraints, Tree.modHead, applyConstraintsHead]
 
-/-- one exported, JSON-tagged field of primitive type without a validate tag -/
+theorem docTags_nil (m : FieldMeta) (t : IR) (hd : m.docT = []) (hx : m.exampleT = []) : docTags m t = t := by
+  cases t <;> simp [docTags, Tree.modHead, docTagsHead, hd, hx]
+
+/-- one exported, JSON-tagged field of primitive type without a validate, doc or example tag -/
 theorem genFields_one_prim (env : Env) (seen opn : List Nat) (m : FieldMeta) (k : PKind) (st : Schemas)
-    (he : m.exported = true) (hj : m.json ≠ s "-") (hv : m.validate = []) :
+    (he : m.exported = true) (hj : m.json ≠ s "-") (hv : m.validate = [])
+    (hd : m.docT = []) (hx : m.exampleT = []) :
     genFields env seen opn false [(m, .prim k)] .nil [] st =
       (PTree.cons (parseJSONName m.json m.name) (primSchema k) .nil, [], st) := by
   have hreq : isFieldRequired env m (.prim k) = false := by
     simp only [isFieldRequired, isPtrKind, hv]
     decide
   rw [genFields, if_neg (by simp [he]), if_neg hj, genFields, gen]
-  simp only [hreq, Bool.false_and, hv, applyConstraints_nil, PTree.set]
+  simp only [hreq, Bool.false_and, hv, applyConstraints_nil, docTags_nil _ _ hd hx, PTree.set]
   rfl
 
 def fmW (n j : String) : FieldMeta :=
@@ -69,7 +73,7 @@ theorem envW_first : (gen envW [] [] (.named 0) []) =
     (refTo (s "dup.I"), [(s "dup.I", objNode [] (.cons (s "a") (primSchema .string) .nil))]) := by
   rw [gen_struct_fresh (n := s "I") (p := s "a/dup") (fs := [.field (fmW "A" "a") (.prim .string)])
     (by decide) (by simp) (by decide) (by decide)]
-  rw [flatten, flatten, genFields_one_prim _ _ _ _ _ _ (by decide) (by decide) (by decide)]
+  rw [flatten, flatten, genFields_one_prim _ _ _ _ _ _ (by decide) (by decide) (by decide) rfl rfl]
   have h1 : schemaName (s "I") (s "a/dup") = s "dup.I" := by decide
   have h2 : parseJSONName (fmW "A" "a").json (fmW "A" "a").name = s "a" := by decide
   simp only [h1, h2]
@@ -78,7 +82,7 @@ theorem envW_second : (gen envW [] [] (.named 1) []) =
     (refTo (s "dup.I"), [(s "dup.I", objNode [] (.cons (s "b") (primSchema .bool) .nil))]) := by
   rw [gen_struct_fresh (n := s "I") (p := s "b/dup") (fs := [.field (fmW "B" "b") (.prim .bool)])
     (by decide) (by simp) (by decide) (by decide)]
-  rw [flatten, flatten, genFields_one_prim _ _ _ _ _ _ (by decide) (by decide) (by decide)]
+  rw [flatten, flatten, genFields_one_prim _ _ _ _ _ _ (by decide) (by decide) (by decide) rfl rfl]
   have h1 : schemaName (s "I") (s "b/dup") = s "dup.I" := by decide
   have h2 : parseJSONName (fmW "B" "b").json (fmW "B" "b").name = s "b" := by decide
   simp only [h1, h2]
@@ -127,7 +131,7 @@ theorem envR_eval : gen envR [] [] (.named 0) [] =
   have h1 : schemaName (s "Node") (s "x/pa") = s "pa.Node" := by decide
   have h2 : parseJSONName (fmW "Next" "next").json (fmW "Next" "next").name = s "next" := by decide
   have h3 : (fmW "Next" "next").validate = [] := rfl
-  simp only [hreq, Bool.false_and, h1, h2, h3, applyConstraints_nil, PTree.set, setNullable, refTo, Tree.modHead]
+  simp only [hreq, Bool.false_and, h1, h2, h3, applyConstraints_nil, docTags_nil (fmW "Next" "next") _ rfl rfl, PTree.set, setNullable, refTo, Tree.modHead]
   rfl
 
 end Rivaas.OpenAPI
